@@ -5,6 +5,16 @@ verdict parameters of the model are instantiated by tables filled from the `ev` 
 namespace Tmv.Drv.C11
 open Tmv Tmv.Evidence
 
+/-- key identity of an 8-hex-digit address token -/
+def keyOfTok (s : String) : Option Nat :=
+  if s.length = 8 then (ofHex s).map (fun b => b.foldl (fun a x => a * 256 + x.toNat) 0) else none
+
+def keyTokBytes : Nat → Nat → Bytes
+  | 0, _ => []
+  | k+1, n => keyTokBytes k (n / 256) ++ [UInt8.ofNat (n % 256)]
+
+def keyTok (k : Nat) : String := toHex (keyTokBytes 4 k)
+
 structure EvDef where
   id : String
   ev : Ev
@@ -18,7 +28,6 @@ structure St where
   blocks : List Block := []
   defs : List EvDef := []
   sigs : List (String × Vote × Bool) := []
-  lcas : List (Ev × Int × Bool) := []
   sys : Option Sys := none
 
 def St.ctx (s : St) : Ctx :=
@@ -27,8 +36,10 @@ def St.ctx (s : St) : Ctx :=
     S := fun e => match s.defs.find? (fun d => d.ev = e) with | some d => d.sz | none => 0,
     sigOK := fun pk v => match s.sigs.find? (fun x => x.1 = pk ∧ x.2.1 = v) with
       | some x => x.2.2 | none => false,
-    lcaOK := fun e h => match s.lcas.find? (fun x => x.1 = e ∧ x.2.1 = h) with
-      | some x => x.2.2 | none => false }
+    chainID := "c11-chain",
+    -- ideal signatures: the token `s<key>` verifies under exactly that key (the Go side derives the
+    -- token from real ed25519 verification of the slot's sign bytes)
+    csigOK := fun key _ sig => sig = "s" ++ keyTok key }
 
 def parseBool (s : String) : Option Bool :=
   if s = "1" then some true else if s = "0" then some false else none
@@ -36,14 +47,35 @@ def parseBool (s : String) : Option Bool :=
 def parseVote (s : String) : Option Vote :=
   match s.splitOn "/" with
   | [h, r, t, addr, bid, ts, idx, sig] => do
+    let _ ← keyOfTok addr
     pure { height := ← h.toInt?, round := ← r.toInt?, typ := ← t.toInt?, addr := addr,
            bid := ← bid.toInt?, ts := ← ts.toInt?, idx := ← idx.toInt?, sig := sig }
   | _ => none
 
 def parseVal (s : String) : Option Validator :=
   match s.splitOn ":" with
-  | [a, p, pk] => do pure { addr := a, power := ← p.toInt?, pkAddr := pk }
+  | [a, p, pk] => do
+    let _ ← keyOfTok a
+    pure { addr := a, power := ← p.toInt?, pkAddr := pk, key := ← keyOfTok pk }
   | _ => none
+
+def parseDerived (s : String) : Option Derived :=
+  match s.splitOn "." with
+  | [a, b, c, d, e] =>
+    if [a, b, c, d, e].all (fun x => (keyOfTok x).isSome) then some ⟨a, b, c, d, e⟩ else none
+  | _ => none
+
+def parseCSig (s : String) : Option CSig :=
+  match s.splitOn ":" with
+  | [f, a, sg] => do pure { flag := ← f.toNat?, addr := a, sig := sg }
+  | _ => none
+
+def parseByz (s : String) : Option (String × Int) :=
+  match s.splitOn ":" with
+  | [a, p] => do pure (a, ← p.toInt?)
+  | _ => none
+
+def splitSemi (s : String) : List String := if s = "-" ∨ s = "" then [] else s.splitOn ";"
 
 def insertKey (k : Key) : List Key → List Key
   | [] => [k]
@@ -72,16 +104,16 @@ def showVErr : VErr → String
   | .notVal => "dv-notval" | .hrs => "dv-hrs" | .addr => "dv-addr" | .sameBlock => "dv-sameblock"
   | .pkAddr => "dv-pkaddr" | .power => "dv-power" | .total => "dv-total" | .sigA => "dv-siga"
   | .sigB => "dv-sigb" | .lcaNoHeader => "lca-noheader" | .lcaLatestBefore => "lca-latestbefore"
-  | .lcaBad => "lca-bad"
+  | .lcaBad => "lca-bad" | .lcaPanic => "panic"
 
 def showRes : Res → String
-  | .ok => "ok" | .invalid e => "err-" ++ showVErr e | .committed => "err-committed"
+  | .ok => "ok" | .invalid .lcaPanic => "panic" | .invalid e => "err-" ++ showVErr e | .committed => "err-committed"
   | .duplicate => "err-duplicate" | .panicked => "panic" | .dead => "dead"
 
 /-- `CheckEvidence` returns verify's error unwrapped (the failing item is not named): canonical
 result of a check is pass / committed / duplicate / invalid -/
 def showCheckRes : Res → String
-  | .invalid _ => "err-invalid" | r => showRes r
+  | .invalid .lcaPanic => "panic" | .invalid _ => "err-invalid" | r => showRes r
 
 def lookup (s : St) (id : String) : Option EvDef := s.defs.find? (fun d => d.id = id)
 
@@ -105,10 +137,15 @@ def step (s : St) (toks : List String) : St × String :=
       | some m => if m.toInt?.isSome then ({ A := a, D := d }, "ok") else (s, "bad-op")
     | _, _ => (s, "bad-op")
   | "blk" :: rest =>
-    match (kv rest "t").bind String.toInt?, (kv rest "vals").bind (fun v => (splitComma v).mapM parseVal) with
-    | some t, some vs =>
-      if s.sys.isSome then (s, "bad-op") else ({ s with blocks := s.blocks ++ [{ time := t, vals := vs }] }, "ok")
-    | _, _ => (s, "bad-op")
+    match (kv rest "h").bind String.toInt?, (kv rest "t").bind String.toInt?,
+          (kv rest "vals").bind (fun v => (splitComma v).mapM parseVal),
+          (kv rest "cr").bind String.toInt?, (kv rest "cf").bind (fun v => (splitComma v).mapM String.toNat?),
+          (kv rest "hash").bind (fun x => (keyOfTok x).map (fun _ => x)), (kv rest "d").bind parseDerived with
+    | some h, some t, some vs, some cr, some cf, some hash, some d =>
+      if s.sys.isSome ∨ h ≠ s.blocks.length + 1 ∨ h > 250 ∨ vs.isEmpty then (s, "bad-op")
+      else ({ s with blocks := s.blocks ++ [{ time := t, vals := vs, hash := hash, derived := d, round := cr,
+                                               flags := cf }] }, "ok")
+    | _, _, _, _, _, _, _ => (s, "bad-op")
   | "ev" :: rest =>
     match kv rest "id", kv rest "kind", (kv rest "hash").bind parseHash, (kv rest "sz").bind String.toNat?,
           (kv rest "vb").bind parseBool, (kv rest "tvp").bind String.toInt?, (kv rest "t").bind String.toInt? with
@@ -124,12 +161,17 @@ def step (s : St) (toks : List String) : St × String :=
         | _, _, _, _, _ => (s, "bad-op")
       else if kind = "lca" then
         match (kv rest "common").bind String.toInt?, (kv rest "cfh").bind String.toInt?,
-              (kv rest "cft").bind String.toInt?, kv rest "tag", (kv rest "ok").bind parseBool with
-        | some common, some cfh, some cft, some tag, some ok =>
-          let e := Ev.lca { common := common, cfh := cfh, cft := cft, tvp := tvp, time := t, tag := tag }
-          ({ s with defs := s.defs ++ [{ id := id, ev := e, hash := hash, sz := sz, vb := vb }],
-                    lcas := s.lcas ++ [(e, cfh, ok)] }, "ok")
-        | _, _, _, _, _ => (s, "bad-op")
+              (kv rest "cft").bind String.toInt?, kv rest "tag", kv rest "hh", (kv rest "hd").bind parseDerived,
+              (kv rest "cmh").bind String.toInt?, (kv rest "cr").bind String.toInt?,
+              (kv rest "cs").bind (fun v => (splitSemi v).mapM parseCSig),
+              (kv rest "cv").bind (fun v => (splitComma v).mapM parseVal),
+              (kv rest "byz").bind (fun v => (splitComma v).mapM parseByz) with
+        | some common, some cfh, some cft, some tag, some hh, some hd, some cmh, some cr, some cs, some cv, some byz =>
+          let e := Ev.lca { common := common, cfh := cfh, cft := cft, tvp := tvp, time := t, chash := hh,
+                            cderived := hd, commitHeight := cmh, round := cr, sigs := cs, cvals := cv, byz := byz,
+                            tag := tag }
+          ({ s with defs := s.defs ++ [{ id := id, ev := e, hash := hash, sz := sz, vb := vb }] }, "ok")
+        | _, _, _, _, _, _, _, _, _, _, _ => (s, "bad-op")
       else (s, "bad-op")
     | _, _, _, _, _, _, _ => (s, "bad-op")
   | "init" :: rest =>
